@@ -135,7 +135,7 @@ Print Assumptions C18_eval_short_circuit.
 (* history: on one (cached) expression every call is judged alone - the i-th result is the evaluation on
    the i-th environment, whatever was evaluated before *)
 Theorem C18_calls_independent : forall V truth n e i d, (i < n)%nat ->
-  nth i (outcome V truth n (Ok e)) d = eval V truth e i.
+  nth i (outcome V truth n (Ok e)) d = eval_v V truth e i.
 Proof. exact outcome_nth. Qed.
 Print Assumptions C18_calls_independent.
 
@@ -218,6 +218,21 @@ Proof. exists witness_lookup. split; [reflexivity | vm_compute; discriminate]. Q
 Theorem C18_refuted_bare_keyword :
   exists c, c_var c = current /\ holds c (run_model c) <> [].
 Proof. exists witness_bare_keyword. split; [reflexivity | vm_compute; discriminate]. Qed.
+
+(* D26 (known finding): evaluation recurses once per nesting level of the closures; a chain of operands is
+   left-nested, so whenever the nesting along the first-evaluated operands exceeds the recursion limit the call
+   raises RecursionError - on every environment, whatever the operands are - although the documentation gives
+   the expression a value; within the limit the recursive evaluation is the documented one *)
+Theorem C18_refuted_deep_chain : forall V truth e i lim,
+  eval_depth_limit V = S lim -> (S lim < spine e)%nat ->
+  eval_v V truth e i = VExc (lit "RecursionError").
+Proof. intros V truth e i lim H Hs. unfold eval_v. rewrite H. now apply eval_lim_spine. Qed.
+Print Assumptions C18_refuted_deep_chain.
+
+Theorem C18_eval_within_limit : forall V truth e i,
+  eval_depth_limit V = 0%nat \/ (depth e <= eval_depth_limit V)%nat -> eval_v V truth e i = eval V truth e i.
+Proof. exact eval_v_enough. Qed.
+Print Assumptions C18_eval_within_limit.
 
 (* non-vacuity: a concrete valid case (not, and, parenthesised or, a data term) over two environments *)
 Example C18_nonvacuous :
